@@ -498,11 +498,29 @@ XPathEvaluator::evaluate(
     m_executionContext->setDOMSupport(&domSupport);
 
     // OK, evaluate the expression...
-    const XObjectPtr    theResult(
-        xpath.execute(
-            contextNode,
-            prefixResolver,
-            *m_executionContext.get()));
+    XObjectPtr  theResult;
+
+    try
+    {
+        theResult =
+            xpath.execute(
+                contextNode,
+                prefixResolver,
+                *m_executionContext.get());
+    }
+    catch(...)
+    {
+        // Break the connections we set.  The support objects
+        // belong to the caller, and may no longer exist the
+        // next time we're called.
+        m_executionContext->setXPathEnvSupport(0);
+
+        m_executionContext->setXObjectFactory(0);
+
+        m_executionContext->setDOMSupport(0);
+
+        throw;
+    }
 
     // Break the connectons we set...
     m_executionContext->setXPathEnvSupport(0);
